@@ -23,6 +23,7 @@ Physical model (documented envelope, also listed in the checks' ASSUMPTIONS):
     plunger is plunged by the world's player after a bounded delay whenever a ball rests in it.
 Nothing teleports: every move is leave-switch -> transit time -> arrive-switch.
 """
+import os
 import random
 
 ACTIVE = None          # the world that currently receives coil commands (one machine at a time per process)
@@ -115,14 +116,19 @@ def build_config(topo):
             cfg["max_eject_attempts"] = d["max_eject_attempts"]
         if d.get("tags"):
             cfg["tags"] = d["tags"]
+        if name == "bd_plunger":
+            cfg["request_ball_events"] = "ev_req_plunger"
         if d.get("idle_missing_ball_timeout_s"):
             cfg["idle_missing_ball_timeout"] = "%ss" % d["idle_missing_ball_timeout_s"]
+        if os.environ.get("C04_DEBUG"):
+            cfg["debug"] = True
         bds[name] = cfg
     cfg = {
         "switches": switches,
         "coils": coils,
         "ball_devices": bds,
-        "playfields": {"playfield": {"default_source_device": topo["source"], "tags": "default"}},
+        "playfields": {"playfield": dict({"default_source_device": topo["source"], "tags": "default"},
+                                         **({"debug": True} if os.environ.get("C04_DEBUG") else {}))},
         "game": {"balls_per_game": topo.get("balls_per_game", 2)},
         "machine": {"balls_installed": topo["balls"], "min_balls": topo.get("min_balls", 1)},
         "virtual_platform_start_active_switches": ", ".join(active),
@@ -235,6 +241,7 @@ class World:
         self.room_checks = 0
         self.deliveries = {}      # target name -> balls that physically arrived there after an MPF/player launch
         self.launch_log = []      # (t, dev, outcome) for C05 retry clause
+        self.arrival_log = []     # (t, destination) of every physical arrival
         self.listeners = []       # callbacks(kind, **info) for the checks
         self.closed = False
         global ACTIVE
@@ -304,6 +311,7 @@ class World:
     # -- coil commands (MPF -> world) --------------------------------------------------------------------------
     def coil_command(self, number, action):
         self.stats["coil_cmds"] += 1
+        self.last_change = self.now()        # MPF is still acting: the rest horizon starts after its last command
         name = self.coil_dev.get(number)
         self._log("coil", number, action)
         if name is None:
@@ -344,7 +352,7 @@ class World:
         """Physical room in a target: free slots minus balls MPF already sent on their way."""
         td = self.devs[target_name]
         inbound = sum(1 for loc in self.balls.values()
-                      if loc[0] == "transit" and loc[2] == target_name and loc[4])
+                      if loc[0] == "transit" and loc[2] == target_name and loc[4] == "eject")
         return td.capacity - td.count() - inbound
 
     def try_launch(self, pd, by):
@@ -376,7 +384,7 @@ class World:
             settled = [b for b in td.ball_ids()
                        if self.now() - td.rest_since.get(b, self.now()) > td.entrance_delay + 1.0]
             inbound = sum(1 for loc in self.balls.values()
-                          if loc[0] == "transit" and loc[2] == pd.target and loc[4])
+                          if loc[0] == "transit" and loc[2] == pd.target and loc[4] == "eject")
             if len(settled) + inbound >= td.capacity:
                 self.full_fire.append({"t": round(self.now(), 3), "source": pd.name, "target": pd.target,
                                        "resting_in_target": len(settled), "inbound_by_mpf": inbound,
@@ -403,7 +411,14 @@ class World:
         if outcome == "ok":
             dst, t = pd.target, self._u(lo, min(hi, 0.45 * et))
         elif outcome == "back_early":
-            dst, t = pd.name, self._u(0.1, 0.7 * et)
+            # back in the source AND counted there before the eject timeout, else it is a late fall back
+            window = et - pd.entrance_delay - 0.3
+            if window > 0.25:
+                dst, t = pd.name, self._u(0.1, 0.8 * window)
+            else:
+                outcome = "back_late"
+                self.launch_log[-1] = self.launch_log[-1][:2] + ("back_late",) + self.launch_log[-1][3:]
+                dst, t = pd.name, self._u(et + 0.3, et + 0.8 * mt)
         elif outcome == "back_late":
             dst, t = pd.name, self._u(et + 0.3, et + 0.8 * mt)
         elif outcome == "late":
@@ -412,13 +427,15 @@ class World:
             dst, t = "playfield", self._u(0.2, 2.0)
         else:
             raise AssertionError(outcome)
-        self.balls[ball] = ("transit", pd.name, dst, self.now() + t, True)
+        # only a ball that is really on its way to the intended target counts as "sent there by MPF"
+        self.balls[ball] = ("transit", pd.name, dst, self.now() + t, "eject" if outcome == "ok" else "return")
         self.after(t, self._arrive, ball, pd.name, dst, True, outcome)
 
     # -- arrivals ----------------------------------------------------------------------------------------------
     def _arrive(self, ball, src, dst, by_mpf, outcome="ok"):
         self.stats["arrivals"] += 1
         self.last_change = self.now()
+        self.arrival_log.append((self.now(), dst))
         if dst == "playfield":
             self.balls[ball] = ("pf",)
             self._log("arrive", "playfield", ball, src)
@@ -434,9 +451,7 @@ class World:
             free = [i for i, b in enumerate(td.slots) if b is None]
             if not free:
                 # physically no room: the ball bounces out onto the playfield
-                self.stats["overflow_bounce"] += 1
-                self._log("bounce", dst, ball)
-                self.balls[ball] = ("pf",)
+                self._bounce(ball, src, dst, by_mpf)
                 return
             i = free[0]
             td.slots[i] = ball
@@ -446,9 +461,7 @@ class World:
             self.report(td.switch_names[i], 1)
         else:
             if len(td.inside) >= td.capacity:
-                self.stats["overflow_bounce"] += 1
-                self._log("bounce", dst, ball)
-                self.balls[ball] = ("pf",)
+                self._bounce(ball, src, dst, by_mpf)
                 return
             td.inside.append(ball)
             self.balls[ball] = ("dev", dst)
@@ -462,6 +475,15 @@ class World:
             self._emit("delivered", target=dst, src=src, ball=ball)
         if td.ejector in ("mech", "mech_coil"):
             self._player_sees_ball(td)
+
+    def _bounce(self, ball, src, dst, by_mpf):
+        """No room in the device: the ball bounces out and ends up loose on the playfield."""
+        self.stats["overflow_bounce"] += 1
+        self._log("bounce", dst, ball)
+        self.balls[ball] = ("pf",)
+        if by_mpf:
+            self.deliveries["playfield"] = self.deliveries.get("playfield", 0) + 1
+            self._emit("delivered", target="playfield", src=src, ball=ball)
 
     # -- the player / gravity (script driven) --------------------------------------------------------------------
     def _player_sees_ball(self, td):
@@ -508,7 +530,7 @@ class World:
         ball = loose[0]
         t = transit if transit is not None else self._u(0.1, 1.2)
         self.stats[kind] = self.stats.get(kind, 0) + 1
-        self.balls[ball] = ("transit", "playfield", dst, self.now() + t, False)
+        self.balls[ball] = ("transit", "playfield", dst, self.now() + t, "loose")
         self._log("loose_to", dst, ball)
         self.after(t, self._arrive, ball, "playfield", dst, False)
         return True
